@@ -175,6 +175,15 @@ pub fn inputs(ctx: &mut Ctx, tag: u64, f: &mut dyn FnMut(&mut Ctx, &str, u32)) {
             if len <= 2 { f(ctx, &s, 0); f(ctx, &s, 0xEEA); }
         }
     }
+    // exotic characters at the very start, before and after fences, and next to every marker of a small recipe
+    for ex in gen::EXOTIC {
+        for base in ["---\ntitle: Crème\n---\nAdd @sal{1%g}.\n", "---\na: [\n---\nx\n", ">> a: b\n", "@a{1%kg}(n) #b ~{5%min}\n", "= s =\n\n> t\n"] {
+            f(ctx, &format!("{ex}{base}"), 0xEEA); f(ctx, &format!("{ex}{base}"), 0);
+            f(ctx, &base.replace("---\n", &format!("---{ex}\n")), 0xEEA);
+            f(ctx, &base.replace('\n', &format!("{ex}\n")), 0xEEA);
+            for m in ["@", "#", "~", "{", "}", "(", ")", "%", ">>", ":", "="] { f(ctx, &base.replace(m, &format!("{ex}{m}")), 0xEEA); f(ctx, &base.replace(m, &format!("{m}{ex}")), 0xEEA); }
+        }
+    }
     let (n_soup, n_rec) = if ctx.thorough { (400_000, 300_000) } else { (8_000, 8_000) };
     for i in 0..n_soup { let s = gen::soup(&mut rng, 12); f(ctx, &s, gen::ext_pattern(i % 256)); }
     for i in 0..n_rec {
